@@ -274,6 +274,15 @@ def first_diff(a, b):
     return a[max(0, k - 20):k + 40], b[max(0, k - 20):k + 40]
 
 
+def named_like_builtins_tree():
+    """Sub-commands called like the built-in 'help' command and like words of the global options."""
+    def node(name, subs=(), aliases=(), kind="plain"):
+        return dict(name=name, aliases=list(aliases), kind=kind, desc="about " + name, help=None, subs=list(subs), opts=[],
+                    args=[dict(name=name + "opt", kind="opt", multi=False, desc="an argument", default=None)] if not subs else [])
+
+    return [node("repo", [node("help"), node("list", aliases=["verbose"]), node("zhidden", kind="hidden")]), node("helper"), node("quiet", [node("help", [node("help")])])]
+
+
 def plan(tier, seed):
     if tier == "quick":
         return [{"n": 30} for _ in range(4)]
@@ -284,6 +293,7 @@ def run(sh, spec):
     repo.activate()
     env = Env()
     ch = RandomChooser(sh.rng)
+    judge_tree(sh, env, named_like_builtins_tree(), sh.rng)
     for i in range(spec["n"]):
         tree = T.gen_tree(ch, rich=True)
         judge_tree(sh, env, tree, sh.rng)
